@@ -98,7 +98,7 @@ theorem find_append_self (ob : AtomsObj) (key : String) (a : Arr) (h : ob.find k
 theorem PropOK.of_heap_eq {κ : Nat → String} {s s' : State} {n : Nat} {p : PropRef} (h : PropOK κ s n p)
     (hh : s'.heap = s.heap) : PropOK κ s' n p := by
   have hb : ∀ b, s'.buf b = s.buf b := by intro b; simp [State.buf, hh]
-  refine ⟨⟨by rw [hh]; exact h.valid.1, by rw [hb]; exact h.valid.2⟩, h.len, h.key, ?_⟩
+  refine ⟨⟨by rw [hh]; exact h.valid.1, by rw [hb]; exact h.valid.2⟩, h.len, h.key, ?_, h.nodup⟩
   intro hk i hi
   rw [hb]; exact h.atype hk i hi
 
@@ -111,7 +111,7 @@ theorem addProp_eq (o : Nat) (key : String) (a : Arr) (s : State) :
 
 theorem inv_addProp {κ : Nat → String} {s : State} (h : InvK κ s) (o : Nat) (key : String) (a : Arr)
     (hv : ArrValid s a) (hlen : a.idx.length = (s.obj o).natoms) (hk : κ a.buf = key)
-    (hat : key = "atype" → AtypeOK s a) (hnew : (s.obj o).find key = none) :
+    (hat : key = "atype" → AtypeOK s a) (hnew : (s.obj o).find key = none) (hnd : a.idx.Nodup) :
     InvK κ (addedState s o key a) ∧ Ext κ s κ (addedState s o key a) ∧
     (addedState s o key a).objs.length = s.objs.length ∧ (addedState s o key a).syss = s.syss ∧
     (addedState s o key a).heap = s.heap ∧
@@ -133,7 +133,7 @@ theorem inv_addProp {κ : Nat → String} {s : State} (h : InvK κ s) (o : Nat) 
       simp only [List.mem_append, List.mem_singleton] at hp
       rcases hp with hp | rfl
       · exact (h.obj_props o p hp).of_heap_eq rfl
-      · exact (⟨hv, hlen, hk, hat⟩ : PropOK κ s _ _).of_heap_eq rfl
+      · exact (⟨hv, hlen, hk, hat, hnd⟩ : PropOK κ s _ _).of_heap_eq rfl
   · intro ob hob
     rcases List.mem_or_eq_of_mem_set hob with h1 | h1
     · exact h.nodup ob h1
@@ -163,13 +163,13 @@ theorem inv_addProp {κ : Nat → String} {s : State} (h : InvK κ s) (o : Nat) 
     ghost files under `key`. -/
 def SrcOK (κ : Nat → String) (s : State) (key : String) : Src → Prop
   | .lit v => ValOK v
-  | .arr a => ArrValid s a ∧ κ a.buf = key
+  | .arr a => ArrValid s a ∧ κ a.buf = key ∧ a.idx.Nodup
 
 theorem SrcOK.mono {κ κ' : Nat → String} {s s' : State} {key : String} {src : Src} (h : SrcOK κ s key src)
     (hext : Ext κ s κ' s') : SrcOK κ' s' key src := by
   cases src with
   | lit v => exact h
-  | arr a => exact ⟨h.1.mono hext.le, (hext.agree _ h.1.1).trans h.2⟩
+  | arr a => exact ⟨h.1.mono hext.le, (hext.agree _ h.1.1).trans h.2.1, h.2.2⟩
 
 theorem srcVal_ok {κ : Nat → String} {s : State} (h : InvK κ s) {key : String} {src : Src} (hs : SrcOK κ s key src) :
     ValOK (srcVal s src) := by
@@ -342,7 +342,7 @@ theorem inv_viewSet {κ : Nat → String} {s : State} (h : InvK κ s) (o : Nat) 
           have : (s.obj o).natoms = 0 := by omega
           simp [this] at hc
       obtain ⟨hinv2, hext2, hlen2, hsys2, _, hfind2⟩ := inv_addProp hinv1 o key ⟨s.heap.length, List.range (s.obj o).natoms⟩
-        hvalid (by simp [hobj]) (by simp [upd]) hat (by rw [hobj]; exact hfind)
+        hvalid (by simp [hobj]) (by simp [upd]) hat (by rw [hobj]; exact hfind) List.nodup_range
       exact ⟨⟨_, hinv2, hext1.trans hext2, hlen2, hsys2⟩, fun _ ho => by rw [hfind2 ho]; rfl⟩
     · -- the array itself is bound
       simp only []
@@ -356,7 +356,7 @@ theorem inv_viewSet {κ : Nat → String} {s : State} (h : InvK κ s) (o : Nat) 
           have : a.idx = [] := by
             apply List.eq_nil_of_length_eq_zero; omega
           rw [this] at hi; simp at hi
-      obtain ⟨hinv2, hext2, hlen2, hsys2, _, hfind2⟩ := inv_addProp h o key a hsrc.1 hlen hsrc.2 hat hfind
+      obtain ⟨hinv2, hext2, hlen2, hsys2, _, hfind2⟩ := inv_addProp h o key a hsrc.1 hlen hsrc.2.1 hat hfind hsrc.2.2
       exact ⟨⟨_, hinv2, hext2, hlen2, hsys2⟩, fun _ ho => by rw [hfind2 ho]; rfl⟩
 
 end Atomman.C06
